@@ -59,6 +59,11 @@ CHECKS = {
    text="Delegation.tla (tree mode) holds one repository per state: every delegation tree over up to 3 delegated roles, every set of names each edge matches and each role lists. It transcribes Targets::find_target and Targets::validate and states the property's own definition of the authorized entry (first in pre-order whose whole chain matches); TLC checks FindMeetsSpec and LoadedMeansAuthorized on all 262 k repositories. Each enumerated repository (quick: all with 2 delegated roles) is built with real metadata - match sets realised as literals, dir/*, '?' patterns and hash prefixes, names partly needing resolution - loaded, and every name read; the digest requested under consistent snapshots shows which role's entry is enforced.",
    note="Trusted: TLC; glob semantics abstracted to match sets (patterns never put '/' under a wildcard); depth 3, 2-3 names; fan-out 3 with 6 names is not reached.",
    technique="TLA+ model of lookup and validation (TLC exhaustive) + replay of every enumerated repository through load/read_target"),
+
+ "C11": dict(cat="model_checking", design="5 C11",
+   text="CJson.tla defines the canonical form of an object (members ordered by the code points of the NFC-normalised keys, only quotation mark and backslash escaped) and models the formatter's buffered, ordered member map; TLC checks FormatterIsCanonical for every insertion order of every key set (size <= 3, keys of length <= 2 over an 8-symbol alphabet with controls, space, '!', '\"', '\\', a decomposed accent). Every enumerated object is serialised by the real CanonicalFormatter in exactly that insertion order (custom Serialize) and through serde_json::Value, and compared byte for byte; a random driver (values to depth 4, full ASCII incl. controls, multi-byte characters, two member orders each, floats must be refused) is compared with the harness's independent canonicaliser.",
+   note="Trusted: TLC; Unicode normalisation is modelled by one composition rule (e + U+0301), which is also the only one the independent canonicaliser knows; numbers are i64/u64.",
+   technique="TLA+ definition + formatter model (TLC exhaustive) as oracle, replay of every case into the real formatter, randomized differential driver"),
 }
 NA_REASON = "check not built yet in this round (planned, see DESIGN.md section 5); not claimed"
 
